@@ -92,6 +92,10 @@ pub struct BasicOpts {
     pub udp_payload_choices: Vec<u16>,
     /// link MTU at the start of the world (one entry: no draw)
     pub link_mtu_choices: Vec<usize>,
+    /// unreliable-datagram application on every connection
+    pub dgram: Option<crate::dgram::DgCfg>,
+    /// the world is not complete before every timed operation has run
+    pub run_all_ops: bool,
 }
 
 impl Default for BasicOpts {
@@ -136,6 +140,8 @@ impl Default for BasicOpts {
             server_tls: None,
             udp_payload_choices: vec![1472],
             link_mtu_choices: vec![65_535],
+            dgram: None,
+            run_all_ops: false,
         }
     }
 }
@@ -164,6 +170,7 @@ pub struct Basic {
     /// max_udp_payload_size advertised by the server / by each client endpoint
     pub udp_payload_s: u16,
     pub udp_payload_c: Vec<u16>,
+    pub dg: Option<crate::dgram::DgramLoad>,
 }
 
 impl Basic {
@@ -331,6 +338,7 @@ impl Basic {
             budget_s,
             udp_payload_s: sep.max_udp_payload,
             udp_payload_c,
+            dg: opts.dgram.clone().map(|c| crate::dgram::DgramLoad::new(c, sk.clone(), ck.clone())),
             wl: Workload::new(opts.wl.clone()),
             oracles: Vec::new(),
             server,
@@ -373,6 +381,9 @@ impl Basic {
                 self.wl.add_side(inc, true, plans);
                 self.wl.sides.get_mut(&inc).unwrap().resp_cap = self.budget_c / 2 / self.opts.streams_max.max(1) as u64;
                 self.client_incs.push(inc);
+                if let Some(dg) = self.dg.as_mut() {
+                    dg.add_side(w, inc, true);
+                }
                 Some(inc)
             }
             Err(e) => {
@@ -481,6 +492,9 @@ impl Basic {
                         w.conn_mut(inc).close(now, VarInt::from_u64(code).unwrap(), bytes::Bytes::from_static(b"bye"));
                         w.conns[inc as usize].closed_locally_at = Some(w.now);
                         self.wl.mark_closed(inc);
+                        if let Some(dg) = self.dg.as_mut() {
+                            dg.mark_closed(inc);
+                        }
                         w.faults.hit("app_close");
                     }
                 }
@@ -505,10 +519,16 @@ impl Scenario for Basic {
         self.server_plans_n += plans.len() as u32;
         self.wl.add_side(inc, false, plans);
         self.wl.sides.get_mut(&inc).unwrap().resp_cap = self.budget_s / 2 / self.opts.streams_max.max(1) as u64;
+        if let Some(dg) = self.dg.as_mut() {
+            dg.add_side(w, inc, false);
+        }
     }
 
     fn on_event(&mut self, w: &mut World, inc: u32, ev: Event) {
         self.wl.on_event(w, inc, &ev);
+        if let Some(dg) = self.dg.as_mut() {
+            dg.on_event(w, inc, &ev);
+        }
     }
 
     fn on_wake(&mut self, w: &mut World, tag: u64) {
@@ -518,6 +538,10 @@ impl Scenario for Basic {
             w.net.partitions.clear();
             w.drv.late = 0;
             w.logf(|| "--- fault phase over ---".to_string());
+        } else if tag >= crate::dgram::TAG_DGRAM && tag < crate::dgram::TAG_DGRAM + (1 << 40) {
+            if let Some(dg) = self.dg.as_mut() {
+                dg.on_wake(w, tag - crate::dgram::TAG_DGRAM);
+            }
         } else if tag == TAG_FAULTS_ON {
             w.net.faults = true;
             w.logf(|| "--- fault phase begins ---".to_string());
@@ -537,7 +561,7 @@ impl Scenario for Basic {
         for o in self.oracles.iter_mut() {
             o.after_step(w, wl);
         }
-        if self.completed_at.is_none() && self.clean && wl.complete(w) {
+        if self.completed_at.is_none() && self.clean && wl.complete(w) && (!self.opts.run_all_ops || self.ops.iter().all(|(at, _)| *at < w.now)) && self.dg.as_ref().is_none_or(|d| d.drained(w)) {
             self.completed_at = Some(w.now);
         }
     }
